@@ -320,6 +320,23 @@ func c09History(rc *RunCtx, c *c09cfg, w *W1) {
 		})
 	}
 	simrt.Sleep(0, 5*time.Millisecond) // quiescence: every admitted query has been written
+	liveDied := func() bool {
+		// A connection that carried a never-answered query is (rightly) declared
+		// dead by the client 10 s after it last armed its waiting-reply deadline; if
+		// that instant falls into the probe, the probe says nothing.
+		for _, cc := range live {
+			if cc.IsClosed() || cc.Peer().IsClosed() {
+				return true
+			}
+		}
+		return false
+	}
+	if liveDied() {
+		simrt.Probe("c09.capacity_probe_void_connection_died")
+		close(hold)
+		u.Close()
+		return
+	}
 	if d := len(rc.Net.Conns()) - dials0; d != 0 {
 		per := map[int]int{}
 		for _, cc := range live {
@@ -345,6 +362,12 @@ func c09History(rc *RunCtx, c *c09cfg, w *W1) {
 			simrt.Send(0, pdone, struct{}{})
 		})
 		simrt.Sleep(0, 5*time.Millisecond)
+		if liveDied() {
+			simrt.Probe("c09.capacity_probe_void_connection_died")
+			close(hold)
+			u.Close()
+			return
+		}
 		if d := len(rc.Net.Conns()) - dials0; d != 1 {
 			rc.Fail("limit_not_enforced_at_capacity", "with every live connection at its limit %d, one more query led to %d new connections (expected 1)", c.L, d)
 		}
@@ -354,7 +377,7 @@ func c09History(rc *RunCtx, c *c09cfg, w *W1) {
 		simrt.Recv(0, pdone)
 	}
 	for _, pc := range probeCalls {
-		if pc.Err != nil && rc.Viol == nil {
+		if pc.Err != nil && rc.Viol == nil && !liveDied() {
 			rc.Fail("probe_call_failed", "capacity probe call %d failed: %v", pc.Idx, pc.Err)
 		}
 		w.CheckProvenance(pc)
